@@ -1,7 +1,13 @@
 package main
 
 import (
+	"encoding/json"
 	"fmt"
+	"go/format"
+	"os"
+	"sort"
+
+	"kadcheck/internal/rules"
 
 	"kadcheck/internal/eng"
 )
@@ -115,5 +121,47 @@ func cmdGoSites(args []string) int {
 		}
 		fmt.Printf("%-95s %s @%s\n", g.Key(), wg, prog.ShortPos(g.Node.Pos()))
 	}
+	return 0
+}
+
+// cmdParamTable evaluates every property on /repo and writes the parameter/result
+// name -> position table used as a fallback when a parameter is renamed.
+func cmdParamTable() int {
+	prog, err := eng.Load("/repo", nil)
+	if err != nil {
+		fmt.Println(err)
+		return 2
+	}
+	rules.RecordNames = true
+	ids := rules.IDs()
+	sort.Strings(ids)
+	for _, id := range ids {
+		func() {
+			defer func() { recover() }()
+			rules.Get(id).Run(rules.NewCtx(prog, id))
+		}()
+	}
+	src := rules.DumpParamTable()
+	if b, err := format.Source([]byte(src)); err == nil {
+		src = string(b)
+	}
+	if err := os.WriteFile("/verif/checker/internal/rules/paramtable_gen.go", []byte(src), 0o644); err != nil {
+		fmt.Println(err)
+		return 2
+	}
+	pinned := []byte(prog.DumpPinned())
+	if b, err := format.Source(pinned); err == nil {
+		pinned = b
+	}
+	if err := os.WriteFile("/verif/checker/internal/eng/pinned_gen.go", pinned, 0o644); err != nil {
+		fmt.Println(err)
+		return 2
+	}
+	lj, _ := json.Marshal(prog.DumpPinnedLocals())
+	if err := os.WriteFile("/verif/checker/internal/eng/pinned_locals.json", lj, 0o644); err != nil {
+		fmt.Println(err)
+		return 2
+	}
+	fmt.Println("written paramtable_gen.go, pinned_gen.go, pinned_locals.json")
 	return 0
 }
